@@ -130,6 +130,52 @@ pub fn run(rep: &mut Rep) {
             }
         }
     }
+    // 1b'. publishes whose Remaining Length sits exactly on, one below and one above every step of its variable byte
+    //      integer (127/128, 16 383/16 384, 2 097 151/2 097 152)
+    rep.note("length steps: QoS 0/1/2 publishes whose PUBLISH has a Remaining Length of 126..129, 16 382..16 385, 2 097 150..2 097 153 bytes, through the whole handshake");
+    for target in [126usize, 127, 128, 129, 16_382, 16_383, 16_384, 16_385, 2_097_150, 2_097_151, 2_097_152, 2_097_153] {
+        for qos in [0u8, 1, 2] {
+            let id = format!("lenstep:{target}:q{qos}");
+            idx += 1;
+            if !rep.take(idx, &id) {
+                continue;
+            }
+            let mut w = World::boot(WorldCfg { seed: rep.seed, ..Default::default() });
+            w.sim.log_enabled = target < 100_000;
+            // operation 0: topic "o/0" (2 + 3 bytes), packet identifier (2 bytes unless QoS 0), property length (1 byte)
+            let overhead = 2 + 3 + if qos > 0 { 2 } else { 0 } + 1;
+            w.payload_sizes.insert(0, target - overhead);
+            let kind = [Kind::Pub0, Kind::Pub1, Kind::Pub2][qos as usize];
+            let op = w.start(0, kind);
+            w.settle_check();
+            if qos > 0 && w.ackable().contains(&(op, 1)) {
+                w.deliver_ack(op, 1, 0, 0);
+                w.settle_check();
+                if qos == 2 && w.ackable().contains(&(op, 2)) {
+                    w.deliver_ack(op, 2, 0, 0);
+                    w.settle_check();
+                }
+            }
+            // the packet on the wire has exactly the intended Remaining Length
+            w.sim.parse_wire();
+            let on_wire = w.sim.wire.iter().find_map(|p| match &p.pkt {
+                Ok(crate::refcodec::CPacket::Publish(_)) => Some(p.bytes.len()),
+                _ => None,
+            });
+            let want_total = 1 + crate::refcodec::varint_len(target as u32) + target;
+            if on_wire != Some(want_total) && w.viols.is_empty() {
+                w.viol(&["C06"], "C06/publish-not-on-wire-as-requested/length-step".into(), format!("a publish whose PUBLISH needs Remaining Length {target} ({want_total} bytes in all) appears on the wire as {:?} bytes", on_wire));
+            }
+            finish(&mut w);
+            rep.add("evaluations", 1);
+            rep.add("length_step_publishes", 1);
+            rep.distinct(&("lenstep", target, qos));
+            if harvest(rep, &mut w, &id) == 0 {
+                rep.sample(|| format!("{id} -> {:?}", w.sim.ops[op].out.as_ref().map(|o| o.brief())));
+            }
+            add_counters(rep, &w);
+        }
+    }
     // 1c. the handshakes of publishes carried into a resumed connection
     {
         let mut ridx = 30_000_000u64;
